@@ -618,15 +618,15 @@ impl Prop for P {
     fn plan(tier: Tier) -> Plan {
         match tier {
             Tier::Quick => Plan {
-                workers: 4,
-                cases_per_worker: 150,
+                workers: 8,
+                cases_per_worker: 1500,
                 timeout_s: 1800,
                 max_shrink_iters: 100,
             },
             Tier::Thorough => Plan {
                 workers: 8,
-                cases_per_worker: 4000,
-                timeout_s: 10800,
+                cases_per_worker: 20000,
+                timeout_s: 14400,
                 max_shrink_iters: 100,
             },
         }
